@@ -633,8 +633,10 @@ Every building function of the user layer and every sliver-level add_*/remove_* 
 (`OrderTok.singleWrite`, Model/TopoC09.lean) - or it is listed here with the exact shape it has today and the theorem its
 atomicity rests on: the five rollback handlers (the position of every write, of the bookkeeping append `r` and of the
 handler's removals included) and the removals that delete in several passes.  A validation moved behind a creation step, a
-write added after another, an `except` narrowed, a handler that no longer re-raises or no longer removes: the table
-changes and `order_discipline` no longer holds. -/
+write added after another, an `except` narrowed, a handler that no longer re-raises or no longer removes changes the entry
+of a function that is not single-write: gen/topoorder.py then refuses to regenerate (naming the function and its new shape),
+the table of the unchanged tree stays in place and correspondence, oracle and the larger search decide.  `orderOk` (below) is
+evaluated by the C09 driver on the table of every run, so `order_discipline` is about what the run actually used. -/
 
 def pinnedOrder : List (String × String × String) := [
   ("Topology._disconnect_interfaces", "loop{loop{v if{if{v w(disconnect_interface)|v}|}}}",
